@@ -1,6 +1,7 @@
 pub enum DeserializeFailure {
     OutOfRange { min: usize, max: usize, found: usize },
     DefiniteLenMismatch(u64, Option<u64>),
+    CBOR(CborError),
     Other,
 }
 #[verifier::external_body] pub struct DeserializeError { _p: core::marker::PhantomData<u8> }
